@@ -5,25 +5,114 @@ from .C13 import CENSUS_TRUST
 from . import trees
 
 
+# ---- differential validation of the generated accessors (lean/Cbor/Gen/Accessors.lean) against the compiled ones: `ACC` lines
+ACC_PRED = ['cbor_typeof', 'cbor_isa_uint', 'cbor_isa_negint', 'cbor_isa_bytestring', 'cbor_isa_string', 'cbor_isa_array', 'cbor_isa_map',
+            'cbor_isa_tag', 'cbor_isa_float_ctrl', 'cbor_is_int', 'cbor_refcount']
+ACC_INT_GET = ['cbor_int_get_width', 'cbor_get_uint8', 'cbor_get_uint16', 'cbor_get_uint32', 'cbor_get_uint64', 'cbor_get_int',
+               'cbor_mark_uint', 'cbor_mark_negint']
+ACC_INT_SET = {'cbor_set_uint8': 8, 'cbor_set_uint16': 16, 'cbor_set_uint32': 32, 'cbor_set_uint64': 64}
+ACC_CTRL = ['cbor_float_get_width', 'cbor_float_ctrl_is_ctrl', 'cbor_ctrl_value', 'cbor_is_float', 'cbor_is_bool', 'cbor_is_null',
+            'cbor_is_undef', 'cbor_get_bool', 'cbor_set_ctrl', 'cbor_set_bool']
+ACC_CONT = ['cbor_array_size', 'cbor_array_allocated', 'cbor_array_is_definite', 'cbor_array_is_indefinite', 'cbor_map_size',
+            'cbor_map_allocated', 'cbor_map_is_definite', 'cbor_map_is_indefinite', 'cbor_string_length', 'cbor_string_codepoint_count',
+            'cbor_string_is_definite', 'cbor_string_is_indefinite', 'cbor_bytestring_length', 'cbor_bytestring_is_definite',
+            'cbor_bytestring_is_indefinite', 'cbor_tag_value']
+ACC_ALL = ACC_PRED + ACC_INT_GET + list(ACC_INT_SET) + ACC_CTRL + ACC_CONT
+U64 = 2 ** 64 - 1
+
+
+def acc_line(fn, ty, a=0, b=0, c=0, rc=1, data=b'', v=0):
+    return 'ACC %s %d %d %d %d %d %s %d' % (fn, ty, a, b, c, rc, data.hex() or '-', v)
+
+
+def acc_lines(tier, rng):
+    """every translated accessor over: all type tags 0..7 and out-of-range tags, width tags 0..3 and 4, payload lengths around 1/2/4/8,
+    byte patterns with distinct / all-ones / sign-bit bytes, boundary values for the setters, all 256 ctrl values"""
+    L = []
+    pats = [bytes(range(0x11, 0x11 + 9 * 0x11, 0x11)), b'\xff' * 9, b'\x00' * 9, b'\x80\x00\x00\x80\x00\x00\x00\x80\x01', b'\x01\x00\x00\x00\x00\x00\x00\x80\xff']
+    lens = [0, 1, 2, 3, 4, 7, 8, 9]
+    for fn in ACC_PRED:
+        for ty in list(range(10)) + [255]:
+            for a in (0, 3):
+                for rc in (0, 1, U64): L.append(acc_line(fn, ty, a, 21, 1, rc, pats[0][:2]))
+    for fn in ACC_INT_GET:
+        for ty in range(9):
+            for w in range(5):
+                for n in (lens if ty <= 1 else [8]):
+                    L.append(acc_line(fn, ty, w, 0, 0, 1, pats[0][:n]))
+        for ty in (0, 1):
+            for w in range(4):
+                for p_ in pats[1:]:
+                    for n in (1 << w, 9): L.append(acc_line(fn, ty, w, 0, 0, 2, p_[:n]))
+    for fn, bits in ACC_INT_SET.items():
+        vals = sorted({0, 1, 2 ** bits - 1, 2 ** (bits - 1), 2 ** (bits - 1) - 1, 0x0123456789abcdef % 2 ** bits, 0xfedcba9876543210 % 2 ** bits, 0x80, 0xff00 % 2 ** bits})
+        for ty in range(9):
+            for w in range(5):
+                for n in (lens if ty <= 1 else [8]):
+                    for v in (vals if (ty <= 1 and n in (bits // 8, 9)) else vals[-1:]):
+                        L.append(acc_line(fn, ty, w, 0, 0, 3, pats[0][:n], v))
+    for fn in ACC_CTRL:
+        for w in range(5):
+            for ctrl in (range(256) if w == 0 else (0, 20, 21, 22, 23, 24, 255)):
+                v = {'cbor_set_ctrl': ctrl ^ 0x5a, 'cbor_set_bool': ctrl & 1}.get(fn, 0)
+                L.append(acc_line(fn, 7, w, ctrl, 0, 1, b'', v))
+        if fn == 'cbor_set_ctrl':
+            for v in range(256): L.append(acc_line(fn, 7, 0, 23, 0, 1, b'', v))
+        for ty in list(range(7)) + [8]:
+            for w in (0, 1):
+                for ctrl in (20, 22): L.append(acc_line(fn, ty, w, ctrl, 0, 1, pats[0][:8], 1))
+    for fn in ACC_CONT:
+        for ty in range(9):
+            for (a, b, c) in ((0, 0, 0), (5, 3, 1), (U64, U64 - 1, 0), (1, 2, 2), (7, 7, 2 ** 32 - 1), (2 ** 63, 2 ** 32, 1)):
+                L.append(acc_line(fn, ty, a, b, c, 1, b''))
+    if tier == 'thorough':
+        for _ in range(6000):
+            fn = rng.choice(ACC_ALL)
+            ty = rng.choice([0, 1, 2, 3, 4, 5, 6, 7, 7, 0, 1, rng.below(12)])
+            a = rng.choice([rng.below(5), rng.below(5), rng.next() % 2 ** 32]) if ty in (0, 1, 7) else rng.choice([rng.below(4), rng.next()])
+            b = rng.choice([rng.below(256), rng.below(3), rng.next()]); c = rng.choice([rng.below(3), rng.next() % 2 ** 32])
+            L.append(acc_line(fn, ty, a, b, c, rng.choice([0, 1, 2, rng.next()]), rng.bytes(rng.choice(lens + [16])), rng.choice([rng.below(256), rng.next()])))
+    return L
+
+
 class C18(Prop):
     id = 'C18'
     module = 'Cbor.Props.C18'
-    theorems = ['Props.C18.C18_readonly', 'Props.C18.C18_surface', 'Props.C18.C18_mutators_excluded']
+    extra_modules = ['Cbor.Props.Accessors']
+    ACC_THEOREMS = ['readonly_accessors', 'mark_uint_eq', 'mark_negint_eq', 'set_ctrl_eq', 'set_bool_eq',
+                    'set_uint8_fields', 'set_uint16_fields', 'set_uint32_fields', 'set_uint64_fields',
+                    'set_uint8_frame', 'set_uint16_frame', 'set_uint32_frame', 'set_uint64_frame', 'setters_keep_refcount',
+                    'get_set_uint8', 'get_set_uint16', 'get_set_uint32', 'get_set_uint64',
+                    'get_uint8_val', 'get_uint16_val', 'get_uint32_val', 'get_uint64_val', 'get_int_val', 'get_int_default', 'get_int_eq',
+                    'int_get_width_eq', 'int_get_width_ok', 'get_uint8_ok', 'get_uint16_ok', 'get_uint32_ok', 'get_uint64_ok', 'get_int_ok',
+                    'set_uint_ok', 'mark_ok', 'mark_keeps_value',
+                    'isa_spec', 'isa_exclusive', 'isa_exhaustive', 'isa_none', 'is_int_eq', 'is_float_eq', 'float_ctrl_fields', 'is_float_iff',
+                    'is_bool_iff', 'is_null_iff', 'is_undef_iff', 'predicates_total', 'float_ctrl_ok', 'get_bool_spec', 'get_set_bool',
+                    'get_set_ctrl', 'container_fields', 'container_ok', 'definite_indefinite', 'array_definite_indefinite']
+    theorems = ['Props.C18.C18_readonly', 'Props.C18.C18_surface', 'Props.C18.C18_mutators_excluded'] + ['Props.Accessors.' + t for t in ACC_THEOREMS]
     trusted_base = BASE_TRUST + CENSUS_TRUST + [
         'C18_readonly is a statement about the syntactic stores of every function reachable in the direct call graph from the read-only API; a store is counted when its '
         'target is reached through a pointer and its access path mentions an item object; writes into plain byte buffers are attributed to the output buffer',
         'the dynamic counterpart: trees are built inside an arena that is write-protected (mprotect PROT_READ) while serialization, size computation, serialize_alloc and every '
         'predicate / getter run, at -O0, -O1+ASan and -O2: any store, even a transient one, faults',
+        'Props.Accessors: Gen.ItemRec models struct cbor_item_t with one set of fields per member of union cbor_item_metadata; the translator emits, for every '
+        'access to a member, the side condition that .type selects it (fixed table tag -> member: the representation invariant established by the constructors), '
+        'and for a store to .type that old and new tag select the same member; item->data is assumed to point to storage aligned for uint64_t that no other '
+        'object of the record overlaps (constructors: header and payload in one malloc block); fixed-width accesses are little-endian (clang target checked on every regeneration)',
+        'ACC correspondence: the C side fills a cbor_item_t directly (header + payload in one block, as the constructors lay it out) and observes the real '
+        'accessor in a forked child under ASan+UBSan with CBOR_ASSERT enabled: ok=0 iff the child dies',
     ]
     rule = ('item trees of the C03 corpus (all leaf kinds x boundary values, nested containers to depth 4, shared / partially filled members, counts at 255/256/65535/65536), each built in the '
-            'protected arena and subjected to the whole read-only battery at three optimisation levels; non-trivial = any tree; distinct by (tree, result)')
+            'protected arena and subjected to the whole read-only battery at three optimisation levels; non-trivial = any tree; distinct by (tree, result); '
+            'plus ACC lines: each of the 49 translated accessors x type tags 0..8 (and 9, 255 for predicates) x width tags 0..4 x payload lengths {0,1,2,3,4,7,8,9} x '
+            'byte patterns x boundary setter values x ctrl 0..255 (generated model vs compiled accessor, result + whole item afterwards + whether the call survives its assertions)')
 
     def trees(self, tier, rng):
         ts = trees.corpus(tier, rng, assigned_only=False)
         return ts if tier == 'thorough' else ts[::2]
 
     def corr_lines(self, tier, rng):
-        return ['RO ' + trees.fmt(t) for t in self.trees(tier, rng) if len(trees.enc(t)) <= 4096]
+        return ['RO ' + trees.fmt(t) for t in self.trees(tier, rng) if len(trees.enc(t)) <= 4096] + acc_lines(tier, rng)
 
     def oracle(self, tier, ctx):
         rng = core.Rng(self.id)
